@@ -236,9 +236,7 @@ func c30JOut(v any, stored string, textTyped bool) string {
 		}
 		return "fnum:" + vfHex(c30FltTok(f))
 	case string:
-		if stored == "blob:x" && x == "" && textTyped {
-			return "lossy:x" // string(empty blob) and base64(empty blob) are the same JSON string
-		}
+		_ = textTyped // string(empty blob) and base64(empty blob) are the same JSON string: printed b64:x
 		if strings.HasPrefix(stored, "blob:") {
 			if b, err := base64.StdEncoding.DecodeString(x); err == nil && "blob:"+vfHexB(b) == stored {
 				return "b64:" + vfHexB(b)
@@ -289,7 +287,7 @@ func c30Lossless(stored, jout string) bool {
 	case "text":
 		return jp[0] == "str" && jp[1] == sp[1]
 	case "blob":
-		return ((jp[0] == "b64" || jp[0] == "arr") && jp[1] == sp[1]) || (stored == "blob:x" && jout == "lossy:x")
+		return ((jp[0] == "b64" || jp[0] == "arr") && jp[1] == sp[1]) 
 	}
 	return false
 }
@@ -567,6 +565,108 @@ func TestVerifC30(t *testing.T) {
 		}
 		id = res[0].GetE().LastInsertId
 		readCols(id, v.json)
+	}
+
+	// ---- multi-row results with MIXED storage classes in one column / expression ----
+	// queryStmtWithConn decides text-vs-blob per VALUE with the column's type string as it is at that
+	// moment: the declared type for the first row, the type filled in from the first row's value
+	// (populateEmptyTypes) afterwards. Every ordered pair (first row, later row) of classes is read.
+	if _, err := dbx.ExecuteStringStmt("CREATE TABLE mr (seq INTEGER PRIMARY KEY, grp INTEGER, u, t TEXT, b BLOB, i INTEGER)"); err != nil {
+		t.Fatal(err)
+	}
+	classLits := map[string][]string{
+		"integer": {"7", "-9223372036854775808"}, "real": {"1.5", "1e100"}, "text": {"'txt'", "'héllo'"},
+		"blob": {"x'00ff41'", "x'6869'", "x''"}, "null": {"NULL"},
+	}
+	classNames := []string{"integer", "real", "text", "blob", "null"}
+	type mref struct {
+		expr, label, ct string
+	}
+	mrefs := []mref{{"u", "untyped-column", "e"}, {"t", "TEXT-column", "t"}, {"b", "BLOB-column", "o"}, {"i", "INTEGER-column", "o"},
+		{"coalesce(u, u)", "expression", "e"}, {"(SELECT b)", "BLOB-column", "o"}}
+	grp := 0
+	runMulti := func(lits []string) {
+		grp++
+		for _, l := range lits {
+			q := fmt.Sprintf("INSERT INTO mr(grp, u, t, b, i) VALUES(%d, %s, %s, %s, %s)", grp, l, l, l, l)
+			if res, err := dbx.ExecuteStringStmt(q); err != nil || res[0].GetError() != "" {
+				t.Fatalf("multi insert %q: %v %v", q, err, res)
+			}
+		}
+		var sel []string
+		for k, c := range mrefs {
+			sel = append(sel, fmt.Sprintf("typeof(%s) AS ty%d, hex(%s) AS hx%d, quote(%s) AS q%d, %s AS val%d", c.expr, k, c.expr, k, c.expr, k, c.expr, k))
+		}
+		q := fmt.Sprintf("SELECT %s FROM mr WHERE grp = %d ORDER BY seq", strings.Join(sel, ", "), grp)
+		rows, err := dbx.QueryStringStmt(q)
+		if err != nil || len(rows) != 1 || rows[0].Error != "" {
+			t.Fatalf("multi read failed: %v %v", err, rows)
+		}
+		rep.Count("multi-row-result")
+		rep.Case("multi:"+strings.Join(lits, ","), true)
+		for _, assoc := range []bool{false, true} {
+			for _, blobArray := range []bool{false, true} {
+				form := fmt.Sprintf("assoc=%v,blob_array=%v", assoc, blobArray)
+				b, err := (&encoding.Encoder{Associative: assoc, BlobsAsByteArrays: blobArray}).JSONMarshal(rows)
+				if err != nil {
+					rep.Fail("encoder-error", fmt.Sprintf("%s: %v", form, err), nil)
+					continue
+				}
+				dec, err := c30DecodeJSON(b)
+				if err != nil {
+					rep.Fail("response-not-json", string(b), nil)
+					continue
+				}
+				cell := func(rowIdx, k int, col string) any {
+					m := dec.([]any)[0].(map[string]any)
+					if assoc {
+						return m["rows"].([]any)[rowIdx].(map[string]any)[fmt.Sprintf("%s%d", col, k)]
+					}
+					return m["values"].([]any)[rowIdx].([]any)[4*k+map[string]int{"ty": 0, "hx": 1, "q": 2, "val": 3}[col]]
+				}
+				for k, c := range mrefs {
+					var stored, jouts []string
+					firstClass := ""
+					for ri := range lits {
+						ty, _ := cell(ri, k, "ty").(string)
+						hx, _ := cell(ri, k, "hx").(string)
+						qv, _ := cell(ri, k, "q").(string)
+						st := c30Stored(ty, hx, qv)
+						jo := c30JOut(cell(ri, k, "val"), st, false)
+						if ri == 0 {
+							firstClass = ty
+						}
+						stored = append(stored, st)
+						jouts = append(jouts, jo)
+						rep.Count(fmt.Sprintf("multi:%s-after-first-%s-in-%s", ty, firstClass, c.label))
+						if !c30Lossless(st, jo) {
+							sig := "readback-lossy:" + ty + "-in-" + c.label
+							// with no declared type the column's type is taken from the FIRST row's value: after an
+							// integer or real first row a later blob is returned as a blob (not a recorded finding)
+							if ri > 0 && c.ct == "e" && (firstClass == "integer" || firstClass == "real") {
+								sig += "-after-numeric-first-row"
+							}
+							rep.Fail(sig, fmt.Sprintf("%s: row %d of %v: SQLite holds %s in %s but the response carries %s", form, ri, lits, st, c.expr, jo),
+								map[string]interface{}{"values": lits, "column": c.expr, "row": ri, "stored": st, "returned": jo, "form": form})
+						}
+					}
+					add(fmt.Sprintf("readcol plain %s %s %s", c.ct, map[bool]string{true: "1", false: "0"}[blobArray], strings.Join(stored, ",")), strings.Join(jouts, ","))
+				}
+			}
+		}
+	}
+	for _, a := range classNames {
+		for _, bcl := range classNames {
+			runMulti([]string{classLits[a][0], classLits[bcl][len(classLits[bcl])-1], classLits[bcl][0]})
+		}
+	}
+	for n := vfScale(60, 4000); n > 0; n-- {
+		var lits []string
+		for k := 2 + r.Intn(3); k > 0; k-- {
+			cl := classLits[classNames[r.Intn(len(classNames))]]
+			lits = append(lits, cl[r.Intn(len(cl))])
+		}
+		runMulti(lits)
 	}
 
 	// stored values that cannot come from a parameter: SQL literals incl. infinity
